@@ -90,6 +90,20 @@ func ViaPeer(cur realm, kind, key, val string) string {
 	return pb.Set(cross(cur), kind, key, val)
 }
 
+// a /p/ method whose receiver object is stored in the peer realm
+func ViaPeerObj(cur realm, kind, key, val string) string {
+	Writes++
+	pb.Cfg.Do(kind, key, val)
+	return "ok"
+}
+
+// a /p/ closure stored in the peer realm
+func ViaPeerClosure(cur realm, kind, key, val string) string {
+	Writes++
+	pb.Doer(kind, key, val)
+	return "ok"
+}
+
 func ViaSub(cur realm, kind, key, val string) string {
 	Writes++
 	sub := cur.Sub("s1")
@@ -106,13 +120,34 @@ func Both(cur realm, kind, key, val string) string {
 
 const plibExtra = `
 func Do(kind, key, val string) { do(kind, key, val) }
+
+// Pub is a helper object: whoever stores it lends its storage realm to Do
+// (the writing realm is still the one that called).
+type Pub struct{ Name string }
+
+func NewPub(name string) *Pub { return &Pub{Name: name} }
+
+func (p *Pub) Do(kind, key, val string) { do(kind, key, val) }
+
+// MakeDoer returns a closure declared here; it may be stored in any realm.
+func MakeDoer() func(kind, key, val string) {
+	return func(kind, key, val string) { do(kind, key, val) }
+}
+`
+
+const pbExtra = realmExtra + `
+// helper objects of the pure package, stored in THIS realm and reachable by others
+var (
+	Cfg  = plib.NewPub("pb")
+	Doer = plib.MakeDoer()
+)
 `
 
 // PaSrc, PbSrc, PlibSrc are the generated parameter writers.
 func PaSrc() string {
 	return setterSrc("pa", "\t\"gno.land/p/verif/plib\"\n\t\"gno.land/r/verif/pb\"\n", paExtra)
 }
-func PbSrc() string   { return setterSrc("pb", "", realmExtra) }
+func PbSrc() string   { return setterSrc("pb", "\t\"gno.land/p/verif/plib\"\n", pbExtra) }
 func PlibSrc() string { return setterSrc("plib", "", plibExtra) }
 
 // SysUserSrc imports the restricted sys/params standard library from an ordinary realm.
